@@ -124,3 +124,7 @@ Fixpoint wire_term (t : term) : Prop :=
    theorems of C07DeriveSound do not depend on it (they take the facts they need as
    explicit premises); it is used for the convenience lemma [cleartext_keeps_secrets]. *)
 Definition cleartext (K : term -> Prop) : Prop := forall t, K t -> wire_term t.
+
+(* RFC 4279 pre_master_secret of a plain PSK suite: uint16 len || zeros(len) || uint16 len || psk.  Lengths and
+   zeros are public; symbolically the pair (public framing, psk). *)
+Definition pms_psk (psk : term) : term := TPair empty psk.
